@@ -2,11 +2,18 @@
 condition tree evaluation with parent / else-chain dependencies, result caching and
 selective reset, stream inheritance, merge in file order, CIDR and host[:port] matching.
 
-Every case is a generated lighttpd.conf (parsed by the REAL parser inside the harness)
-plus an operation sequence on one connection (check node / rewrite attribute +
-reset_item / full reset / validity change / next request / h2 stream spawn /
-module patch_config).  The Lean model gets the tree the generator intended; the harness
-prints the tree the parser built, every result and the whole cache after every step."""
+Every case is a generated lighttpd.conf (parsed by the REAL parser inside the harness:
+configparser.y through lemon, configfile.c, config_plugin_values_init, mod_setenv
+set_defaults, config_finalize) plus an operation sequence on one connection:
+  k check a block (config_check_cond)      a rewrite an attribute + config_cond_cache_reset_item
+  z config_cond_cache_reset                v change r->conditional_is_valid
+  n new request (attributes + full reset)  N/h next request parsed, then response.c
+  s h2_init_stream() from con->request       http_response_config() (reset + config_patch_config)
+  p config_patch_config / mod_setenv_patch_config
+The Lean model gets the tree the generator intended (node tokens); the harness prints the
+tree the parser really built, every result, and the whole cond_cache after every step.
+The oracle is an independent Python evaluator of the configuration language (recursion
+over the source-level config, python `re`, python `ipaddress`)."""
 import ipaddress, itertools, os, re, socket
 from .. import common as C
 
@@ -19,9 +26,10 @@ MANIFEST = dict(
          "and host[:port] rules; model tied to the C (real config parser included) by differential runs "
          "under ASan/UBSan",
     note="trusted: Lean kernel, hand-written model validated by the h_cond correspondence (real "
-         "configparser.y/configfile.c/configfile-glue.c/mod_setenv.c/h2.c h2_init_stream), PCRE2 replaced "
-         "by a small matcher on the generator's regex subset; where the glue calls reset_item "
-         "(mod_extforward, response.c path-info) is outside the in-process model",
+         "configparser.y/configfile.c/configfile-glue.c/mod_setenv.c/response.c http_response_config/h2.c "
+         "h2_init_stream), PCRE2 replaced by a small matcher on the generator's regex subset; the places "
+         "where other glue calls reset_item (mod_extforward, response.c path-info split, mod_magnet) are "
+         "outside the in-process model (the harness performs the reset that glue is specified to perform)",
     tech="Lean 4 proof over hand-written model + differential correspondence (in-process C harness)",
     ref="6/C14")
 
@@ -71,15 +79,13 @@ HDRS = ["User-Agent", "Referer", "Cookie", "Accept-Language", "X-Foo"]
 REGEX = {
     "U": ["^/a", "\\.php$", "^/a/.*\\.php$", "/b", "^/[ab]/", "x+", "^/$", "^/a$", "php$", "^/b",
           "^/a/?$", "\\.php", "^/[^a]", "/a/b"],
-    "H": ["^h1", "^h[12]$", "\\.com$", "^h1(no", ":80+$", "^h.?$", "h2"],
+    "H": ["^h1", "^h[12]$", "\\.com$", ":80+$", "^h.?$", "h2"],
     "I": ["^10\\.", "^192\\.168\\.", "\\.[23]$", "^2001:db8:.*", "^[0-9.]+$", ":"],
     "Q": ["^a=", "b=2$", "a=.&", "z$", "^$"],
     "C": ["^https?$", "s$"],
-    "M": ["^(no", "^P", "^[GH]", "T$"],
-    "S": ["8080$", "^:80$", "^127\\."],
+    "M": ["^P", "^[GH]", "T$"],
     "R": ["Mozilla", "^curl/", "^en", "k=.", "^http://h1/", "^ba[rz]$", "ba"],
 }
-REGEX = {k: [r for r in v if "(" not in r] for k, v in REGEX.items()}
 NETS = ["10.0.0.0/8", "10.1.2.3", "10.1.2.0/24", "10.1.2.2/31", "192.168.0.0/16", "10.1.2.3/32",
         "128.0.0.0/1", "10.0.0.0/1", "2001:db8::/32", "2001:db8::1", "2001:DB8::/127", "fe80::/10",
         "::ffff:10.1.2.3/128", "::ffff:10.1.2.0/120", "::ffff:10.0.0.0/100", "::ffff:0.0.0.0/96",
@@ -731,15 +737,16 @@ def gen_small(ctx):
     sequence of the given length; yields batches of lines"""
     P2, P3 = SMALL_CONDS[:2], SMALL_CONDS[:3]
     if ctx.quick:
-        plan = [(1, P3, None, 4), (2, P3, None, 4), (3, P3, None, 3)]
+        plan = [(1, P3, None, 4, 1), (2, P3, None, 3, 1), (3, P2, None, 3, 1), (3, P3, 1, 3, 1)]
     else:
-        plan = [(1, SMALL_CONDS, None, 5), (2, P3, None, 5), (3, P3, None, 4), (4, SMALL_CONDS, 6, 3)]
-    for k, pool, variants, seqlen in plan:
-        cfgs = small_configs(k, pool, ctx.rng, variants)
+        plan = [(1, SMALL_CONDS, None, 5, 1), (2, P3, None, 4, 1), (3, P3, None, 3, 1), (3, P2, None, 4, 3),
+                (4, SMALL_CONDS, 4, 3, 1)]
+    for k, pool, variants, seqlen, stride in plan:
+        cfgs = small_configs(k, pool, ctx.rng, variants)[ctx.rng.randrange(stride)::stride]
         ctx.notes.append("small scope: %d blocks, %d configurations (%s condition assignments from %d "
-                         "conditions + else, all shapes), all op sequences of length %d ending in an "
+                         "conditions + else, all shapes%s), all op sequences of length %d ending in an "
                          "observation" % (k, len(cfgs), "all" if variants is None else "%d random" % variants,
-                                          len(pool), seqlen))
+                                          len(pool), "" if stride == 1 else ", every %dth" % stride, seqlen))
         step = max(1, 200000 // max(1, len(small_lines(cfgs[:1], seqlen))))
         for i in range(0, len(cfgs), step):
             yield small_lines(cfgs[i:i + step], seqlen)
@@ -764,6 +771,44 @@ def gen_random(ctx):
             lines.append(make_line(cfg, rand_ops(rng, cfg, rng.choice([6, 12, 25]))))
         yield lines
         _cfg_cache.clear()
+
+
+def gen_corpus(ctx):
+    """fixed regression configurations (past findings), each with every op sequence of length 3"""
+    H, U, Cc, M = KEYS["H"][0][0], KEYS["U"][0][0], KEYS["C"][0][0], KEYS["M"][0][0]
+
+    def nd(cond, dirs, chains=()):
+        n = Node(Cond(*cond) if cond else None, dirs)
+        n.chains = list(chains)
+        return n
+    cfgs = [
+        # equal conditions nested in two different plain-else blocks must stay distinct blocks
+        Config([], [[nd(("U", U, None, "=^", "/b"), []),
+                     nd(None, [], [[nd(("C", Cc, None, "==", "http"), [(1, 4)])]])],
+                    [nd(("M", M, None, "==", "GET"), []),
+                     nd(None, [], [[nd(("C", Cc, None, "==", "http"), [(0, 6)])]])]]),
+        # else-branch evaluated while the enclosing block is false, then the enclosing block's field
+        # is rewritten (stale "skip" before fix f0e74a5)
+        Config([], [[nd(("H", H, None, "==", "h1"), [],
+                        [[nd(("U", U, None, "=^", "/a"), [(3, 2)]), nd(("U", U, None, "=^", "/b"), [(0, 3)]),
+                          nd(None, [(0, 4)])]])]]),
+    ]
+    attrs = [attr_tok("H", "h1"), attr_tok("H", "h2"), attr_tok("U", "/a"), attr_tok("U", "/b/x"),
+             attr_tok("C", "https"), attr_tok("M", "POST")]
+    first = "n,0,%s,%s" % (ALL, ";".join([attr_tok("H", "h2"), attr_tok("U", "/c"), attr_tok("C", "http"),
+                                          attr_tok("M", "GET")]))
+    lines = []
+    for cfg in cfgs:
+        remember(cfg)
+        n = len(cfg.nodes)
+        used = set(cfg.comp_of(i) for i in range(1, n))
+        alpha = ["k,0,%d" % i for i in range(1, n)] + ["a,0," + a for a in attrs if a[0] in used] + \
+                ["p,0,012", "p,0,345", "h,0"]
+        for seq in itertools.product(alpha, repeat=3):
+            if seq[-1][0] in "kph":
+                lines.append(make_line(cfg, [first] + list(seq)))
+    yield lines
+    _cfg_cache.clear()
 
 
 def gen_match(ctx):
@@ -828,7 +873,8 @@ def run(ctx):
     if exe is None:
         ctx.broken.append({"kind": "harness-build", "names": ["h_cond"], "log": (err or "")[-3000:]})
         return
-    for name, g in (("cond(exhaustive small trees x op sequences)", gen_small),
+    for name, g in (("cond(regression corpus)", gen_corpus),
+                    ("cond(exhaustive small trees x op sequences)", gen_small),
                     ("cond(random trees, long op sequences)", gen_random),
                     ("cond(CIDR / host:port matrix)", gen_match)):
         for lines in g(ctx):
